@@ -304,6 +304,22 @@ fn run(ctx: &mut Ctx) {
         }
         total += n;
     }
+    // ---- names are case-sensitive: every capitalisation of a directive name is a near miss
+    if shard == 0 {
+        for name in ["include", "after", "run", "temp", "tag", "write"] {
+            let mut variants = vec![name.to_uppercase(), format!("{}{}", name[..1].to_uppercase(), &name[1..])];
+            let mut mid: Vec<char> = name.chars().collect();
+            let k = mid.len() / 2;
+            mid[k] = mid[k].to_ascii_uppercase();
+            variants.push(mid.into_iter().collect());
+            for v in variants {
+                for shape in [format!("TXTPP#{v}"), format!("TXTPP#{v} x"), format!("-TXTPP#{v} a.txt"), format!("  // TXTPP#{v}"), format!("see TXTPP#{v} other.txt for the syntax")] {
+                    check_detect(ctx, &shape);
+                    ctx.count("case_variant_lines", 1);
+                }
+            }
+        }
+    }
     // ---- continuation: distinct (ws, prefix, type) of directive lines of <= 4 tokens
     let mut dirs: BTreeSet<(String, String, String)> = BTreeSet::new();
     for len in 0..=4usize {
